@@ -605,6 +605,8 @@ def emit_program(prog, bodies=False, crate_attrs="", target="host"):
     out.append(crate_attrs)
     out.append(prog.prelude)
     for mod in prog.modules:
+        if getattr(mod, "nested_in", None):
+            continue          # emitted inside its parent (below)
         out.append("#[diplomat::bridge]\n")
         out.append(attrs_s(mod.attrs, ""))
         out.append("pub mod %s {\n" % mod.name)
@@ -618,6 +620,16 @@ def emit_program(prog, bodies=False, crate_attrs="", target="host"):
             out.append("\n")
         out.append(mod.extra_src)
         out.append(emit_traits(prog, mod))
+        for sub in prog.modules:
+            if getattr(sub, "nested_in", None) == mod.name:
+                # a bridge module written inside another bridge module: the macro expands it on its own, without seeing the outer one
+                out.append("    #[diplomat::bridge]\n" + attrs_s(sub.attrs, "    ") + "    pub mod %s {\n" % sub.name)
+                out.append("    use diplomat_runtime::{DiplomatWrite, DiplomatOption, DiplomatResult};\n")
+                for t in sub.items:
+                    out.append(emit_typedef(prog, t, bodies))
+                    out.append("\n")
+                out.append(sub.extra_src)
+                out.append("    }\n")
         out.append("}\n\n")
     if bodies:
         out.append(vf_mod(target))
